@@ -40,6 +40,17 @@
 // the blank-line / CR normalisation git-lfs applies to the old file is not
 // flagged; bytes are only compared for the idempotence clause.
 //
+// Indexed-state cases (15 %): a few files of U and every pre-existing .gitattributes are
+// staged (half of them committed) with LFS filters off, and either one staged file that the
+// new pattern matches is deleted from the work tree, or the new pattern matches the staged
+// .gitattributes/.gitignore. `git lfs track` then ends on one of its error exits (exit 2
+// "Error marking ... modified", exit 1 "matches forbidden file"). A non-zero exit is
+// legitimate there. Weakest reading for the arguments of such a command: every path they
+// denote either shows the complete LFS row (the pattern was written all the same) or its row
+// is exactly what it was before the command (nothing was written); the arguments stay
+// unjudged until a later command on them exits 0. The frame check is unchanged: whatever the
+// exit status, no other (pattern, path) assignment may change.
+//
 // No wall clock is used by any oracle; the command watchdog is 5 minutes and a
 // fired watchdog is "inconclusive".
 package main
@@ -206,6 +217,7 @@ const (
 	stUntouched = iota
 	stTracked
 	stUntracked
+	stUnknown // after a command that exited non-zero in an indexed-state case
 )
 const (
 	lkUnknown = iota
@@ -233,6 +245,44 @@ func runCase(c Case) (res result) {
 	}
 	if c.PreDir != nil {
 		must(os.WriteFile(filepath.Join(wd, ".gitattributes"), []byte(*c.PreDir), 0o644))
+	}
+	if c.Indexed != "" {
+		res.counts["indexed_state_cases"]++
+		for _, f := range c.IdxFiles {
+			full := filepath.Join(repo, f)
+			content := "x\n"
+			if path.Base(f) == ".gitignore" {
+				content = "*.tmp\n"
+			}
+			if _, err := os.Lstat(full); err == nil {
+				continue
+			}
+			if os.MkdirAll(filepath.Dir(full), 0o755) != nil || os.WriteFile(full, []byte(content), 0o644) != nil {
+				res.counts["indexed_files_not_creatable"]++ // e.g. a path that is a directory of another one
+				if f == c.Victim {
+					res.counts["indexed_victim_not_creatable"]++
+				}
+				continue
+			}
+			res.counts["indexed_files_staged"]++
+		}
+		if r := env.PlainGit(repo, "add", "-A"); !r.OK() {
+			panic("git add failed: " + r.String())
+		}
+		if c.Commit {
+			if r := env.PlainGit(repo, "commit", "-q", "-m", "initial"); !r.OK() {
+				panic("git commit failed: " + r.String())
+			}
+			res.counts["indexed_state_committed"]++
+		}
+		if c.Victim != "" {
+			if os.Remove(filepath.Join(repo, c.Victim)) == nil {
+				res.counts["indexed_files_deleted_from_worktree"]++
+			}
+		}
+		if c.PreRoot != nil && len(*c.PreRoot) > 4096 || c.PreDir != nil && len(*c.PreDir) > 4096 {
+			res.counts["indexed_state_gitattributes_over_4k"]++
+		}
 	}
 	attrFile := filepath.Join(wd, ".gitattributes")
 	inDir := func(rel string) string {
@@ -364,8 +414,10 @@ func runCase(c Case) (res result) {
 		res.viols = append(res.viols, violation{sig, what, d})
 	}
 
-	var prevAfter []byte
-	prevExists := false
+	prevAfter, perr := os.ReadFile(attrFile)
+	prevExists := perr == nil
+	prevT := s0   // table after the previous command
+	errTrig := "" // sticky: an indexed-state command has exited non-zero earlier in this sequence
 	for k, step := range c.Steps {
 		res.counts["steps_"+step.Op]++
 		mode := c.Args[step.Args[0]].Mode
@@ -403,6 +455,27 @@ func runCase(c Case) (res result) {
 		if !out.OK() {
 			res.counts["git_lfs_nonzero_exit"]++
 		}
+		errExit := c.Indexed != "" && !out.OK()
+		if errExit {
+			if errTrig == "" {
+				res.counts["error_exit_cases/"+c.Indexed]++ // cases that reached an error exit at least once
+			}
+			errTrig = "track-error-exit/" + c.Indexed
+			res.counts[fmt.Sprintf("error_exit_steps_code%d", out.Code)]++
+			res.counts["error_exit_steps/"+c.Indexed]++
+			// what git-lfs said (evidence only, never used by the oracle)
+			switch {
+			case bytes.Contains(out.Stdout, []byte("matches forbidden file")) || bytes.Contains(out.Stderr, []byte("matches forbidden file")):
+				res.counts["error_exit_said_forbidden_file"]++
+			case bytes.Contains(out.Stdout, []byte("Error marking")) || bytes.Contains(out.Stderr, []byte("Error marking")):
+				res.counts["error_exit_said_error_marking_modified"]++
+			default:
+				res.counts["error_exit_said_other"]++
+			}
+			if len(prevAfter) > 4096 {
+				res.counts["error_exit_steps_over_4k_gitattributes"]++
+			}
+		}
 		if out.GoCrash() {
 			report(k, evid.Sig{Symptom: "go-panic", Trigger: step.Op + ":" + unattributed(c.Args[step.Args[0]])}, "git-lfs died with a Go panic: "+line, map[string]any{"stderr": sbx.Trunc(out.Stderr, 4000)})
 		}
@@ -439,6 +512,14 @@ func runCase(c Case) (res result) {
 		// ---- model -------------------------------------------------------------
 		for _, ai := range step.Args {
 			a := c.Args[ai]
+			if errExit {
+				st[ai], lk[ai] = stUnknown, lkUnknown
+				continue
+			}
+			if st[ai] == stUnknown && step.Op == "track" {
+				st[ai], lk[ai] = stTracked, lkUnknown // the failed command may or may not have written a line
+				continue
+			}
 			switch step.Op {
 			case "track":
 				if st[ai] == stTracked && lk[ai] == lkYes {
@@ -488,6 +569,34 @@ func runCase(c Case) (res result) {
 				us = append(us, u)
 			}
 			sort.Strings(us)
+			inStep := false
+			for _, x := range step.Args {
+				if x == ai {
+					inStep = true
+				}
+			}
+			if st[ai] == stUnknown {
+				if !(errExit && inStep) {
+					res.counts["arg_checks_skipped_state_unknown_after_error_exit"]++
+					continue
+				}
+				// the command failed: complete LFS row, or nothing changed (contested paths included:
+				// both alternatives are independent of the order of lines)
+				for _, u := range us {
+					res.counts["error_exit_denoted_paths_judged"]++
+					row := t[u]
+					d, nn := rowDiff(prevT[u], row)
+					res.counts["attr_values_compared"] += int64(nn)
+					full := attrOf(t, u, "filter") == "lfs" && attrOf(t, u, "diff") == "lfs" && attrOf(t, u, "merge") == "lfs" && attrOf(t, u, "text") == "unset"
+					if len(d) > 0 && !full {
+						report(k, evid.Sig{Symptom: "unrelated-changed", Trigger: errTrig},
+							fmt.Sprintf("`%s` (step %d) exited %d; path %s neither shows the LFS row nor kept its row: %s", line, k+1, out.Code, strconv.Quote(u), strings.Join(d, "; ")),
+							map[string]any{"path": u, "path_quoted": strconv.Quote(u), "row_after": row, "row_before_command": prevT[u], "argument": a, "exit_code": out.Code})
+						break
+					}
+				}
+				continue
+			}
 			for _, u := range us {
 				if owners[u] > 1 || shadow[u] {
 					res.counts["contested_paths_not_judged"]++
@@ -590,8 +699,12 @@ func runCase(c Case) (res result) {
 				continue
 			}
 			sig := evid.Sig{Symptom: "unrelated-changed", Trigger: "unattributed:frame"}
+			if errTrig != "" {
+				sig.Trigger = errTrig
+			}
 			if attrOf(t, u, "filter") == "lfs" && attrOf(s0, u, "filter") != "lfs" {
 				sig.Symptom = "over-match"
+				sig.Trigger = "unattributed:frame"
 				// witness-based attribution: u is the TAB variant of a denoted path of an argument containing a space
 				for _, a := range c.Args {
 					// the line written for a "body"tail / TAB name is read by Git as a pattern for another path
@@ -611,6 +724,7 @@ func runCase(c Case) (res result) {
 			report(k, sig, fmt.Sprintf("after `%s` (step %d): path %s is denoted by no argument but changed: %s", line, k+1, strconv.Quote(u), strings.Join(d, "; ")),
 				map[string]any{"path": u, "path_quoted": strconv.Quote(u), "row_after": t[u], "row_before_sequence": s0[u]})
 		}
+		prevT = t
 	}
 	return
 }
